@@ -22,7 +22,7 @@ from mc.search import Cfg, call_site, execute
 from mc.specs import domain_fns, spec_signature
 
 LEVEL = "exploration"
-M_QUICK, M_THOROUGH = 6, 8
+M_QUICK, M_THOROUGH = 6, 7
 
 
 class Series:
@@ -201,7 +201,7 @@ def check_spec(acc: Acc, cfg, spec, M: int, payload: dict, genf: bool) -> None:
     for eq in eqs:
         acc.count("evaluations")
         try:
-            with deadline(120):
+            with deadline(25):
                 p = equation_problem(spec, eq, M)
         except Timeout:
             acc.count("equations_over_budget")
@@ -223,7 +223,7 @@ def check_spec(acc: Acc, cfg, spec, M: int, payload: dict, genf: bool) -> None:
 
         order = 12
         try:
-            with deadline(60):
+            with deadline(30):
                 gf = spec.get_genf()
                 coeffs = taylor_expand(gf, order)
         except Timeout:
